@@ -6,6 +6,7 @@ import (
 	internaltypes "lunar/engine/streams/internal-types"
 	publictypes "lunar/engine/streams/public-types"
 	streamtypes "lunar/engine/streams/types"
+	"lunar/engine/utils"
 	"lunar/engine/verifhook"
 
 	"github.com/rs/zerolog/log"
@@ -127,6 +128,11 @@ func (s *Stream) ExecuteFlow(
 			targetNode := edge.GetTargetNode()
 			if shortCircuitNode, err = s.ExecuteFlow(flow, apiStream, targetNode, actions); err != nil {
 				return shortCircuitNode, fmt.Errorf("failed to execute flow: %w", err)
+			}
+			if !utils.IsInterfaceNil(shortCircuitNode) {
+				// A processor down this edge answered the request: the rest of the request
+				// path (the remaining edges) is skipped and the node is handed over as is.
+				return shortCircuitNode, nil
 			}
 		}
 	}
